@@ -6,7 +6,7 @@ EN = ("C03", "C01")
 
 def build(tier):
     qs = []
-    cfgs = [(2, 3, 3, 1), (3, 3, 3, 1), (3, 4, 4, 1)] if tier == "quick" else ldpc_configs("thorough")
+    cfgs = [(1, 3, 3, 1), (2, 3, 3, 1), (3, 3, 3, 1), (3, 4, 4, 1)] if tier == "quick" else [(1, 3, 3, 1), (2, 3, 3, 1), (3, 3, 3, 1), (3, 4, 4, 1), (4, 3, 3, 1), (2, 4, 4, 2), (4, 4, 3, 2), (2, 6, 3, 1), (3, 6, 5, 1), (1, 5, 5, 2)]
     for ci, cfg in enumerate(cfgs):
         k, r, n1, sd = cfg
         n = k + r
@@ -14,7 +14,7 @@ def build(tier):
             if tier == "quick":
                 combos = [(pi % 2, pi % 3, (0, 1, 3)[(pi // 2) % 3])] if n > 5 else [(0, pi % 3, 0), (1, 0, (1, 3)[pi % 2])]
             else:
-                combos = [(0, 0, 0), (0, 1, 1), (0, 2, 3), (1, 0, 3), (1, 0, 1)]
+                combos = [(0, 0, 0), (0, 1, 1), (0, 2, 3), (1, 0, 3), (1, 0, 1)] if n <= 7 else [(pi % 2, pi % 3, (0, 1, 3)[pi % 3])]
             for api, var, rm in combos:
                 qs.append(ldpc_cycle("C03", cfg, pat, (1, 9)[pi % 2], api, 1, var, EN, rand_mode=rm))
     meta = dict(
